@@ -108,12 +108,27 @@ def judge(rep, n, length, seed, wd, tag, owns, jobs=8, stats=None):
     return st
 
 
+def judge_many(rep, n, length, seed, wd, tag, owns, jobs=8, stats=None, batch=4000):
+    """judge() in batches (a batch of 4000 programs is ~100 MB of log): bounded memory for the large thorough tiers"""
+    st = stats or Stats()
+    k = 0
+    while n > 0:
+        m = min(n, batch)
+        judge(rep, m, length, seed + 7919 * k, wd, f"{tag}{k}", owns, jobs=jobs, stats=st)
+        for f in os.listdir(wd):
+            if f.startswith(f"prog_{tag}{k}"):
+                os.remove(os.path.join(wd, f))
+        n -= m
+        k += 1
+    return st
+
+
 def phase(rep, tier, seed, wd, owns, quick_n=250, thorough_n=15000):
     """the standard whole-program phase of a property's check"""
     q = tier == "quick"
-    st = judge(rep, quick_n if q else thorough_n, 12, seed, wd, "pg", owns, jobs=8 if q else 14)
+    st = judge_many(rep, quick_n if q else thorough_n, 12, seed, wd, "pg", owns, jobs=8 if q else 14)
     if not q:
-        judge(rep, thorough_n // 4, 30, seed + 1, wd, "pl", owns, jobs=14, stats=st)
+        judge_many(rep, thorough_n // 4, 30, seed + 1, wd, "pl", owns, jobs=14, stats=st, batch=1500)
     cov(rep, st)
     return st
 
